@@ -119,6 +119,45 @@ def check_unary(k, R, acc):
         except lie.LieAlgebraException:
             pass
         acc.count("transitions", 4)
+    # near-miss blocks at every overall scale (the membership test must be
+    # relative to the scale), and a wrong explicitly given scale
+    for s in SCALES:
+        for name, B in bad:
+            if not name.startswith(("sheared", "one axis", "reflection",
+                                    "point")):
+                continue
+            T4 = np.eye(4)
+            T4[:3, :3] = s * B
+            T4[:3, 3] = TRANS[2]
+            if lie.is_sim3(T4):
+                msgs.append("is_sim3 accepts a %s block at overall scale %g"
+                            % (name, s))
+            acc.count("transitions")
+        S = lie.sim3(R, TRANS[2], s)
+        if not lie.is_sim3(S, s):
+            msgs.append("is_sim3(S, s) rejects the true scale %g" % s)
+        for wrong in (1.5 * s, s / 1.5, 1.01 * s):
+            if lie.is_sim3(S, wrong):
+                msgs.append("is_sim3(S, %g) accepts a wrong scale (true %g)"
+                            % (wrong, s))
+        acc.count("transitions", 4)
+    # rel(A, B) = A^-1 * B also for neighbouring poses (same or nearly the
+    # same orientation, small steps at large coordinates)
+    for t in TRANS:
+        A = lie.se3(R, t)
+        sc = max(1.0, np.abs(t).max())
+        for dt in ((1.5, 0.0, 0.0), (1e-3, 0.0, 0.0), (0.0, 1e3, -2.0),
+                   (1e-6 * sc, 0.0, 1e-6 * sc)):
+            for dR in (np.eye(3), geom.rodrigues((0, 0, 1), 1e-6),
+                       geom.rodrigues((1, 1, 0), 1e-3)):
+                B = lie.se3(R @ dR, t + np.array(dt))
+                got = lie.relative_se3(A, B)
+                exp = geom.pose_inv(A) @ B
+                if not common.close(got, exp, sc):
+                    msgs.append("rel(A,B) != A^-1*B for neighbouring poses "
+                                "(step %s at %s): max dev %.3g" %
+                                (dt, t.tolist(), np.abs(got - exp).max()))
+                acc.count("transitions")
     for row in ((0, 0, 0, 1 + 1e-9), (1e-12, 0, 0, 1), (0, 0, 0, 0.5),
                 (0, 0, 1, 1)):
         P = lie.se3(R, TRANS[2])
